@@ -29,7 +29,9 @@ type Fault struct {
 
 // Mut is one single corruption / fault schedule applied to one file of the pristine plan.
 type Mut struct {
-	Kind      string  `json:"kind"` // none | trunc | flip | delete | readfault | preexist
+	Kind string `json:"kind"` // none | trunc | flip | delete | readfault | preexist (applied virtually by the wrapper)
+	// disk-trunc | disk-flip | disk-delete | disk-dir: applied PHYSICALLY to a scratch copy of the replica
+	// directory; Restore then runs over a plain file.NewReplicaClient(copy) — the real listing/open/stat code
 	File      int     `json:"file"` // index into the pristine plan
 	Off       int     `json:"off"`
 	Mask      int     `json:"mask"`
@@ -247,6 +249,9 @@ func doRestore(q workerReq) workerResp {
 	os.MkdirAll(q.OutDir, 0o755)
 	out := filepath.Join(q.OutDir, "restored.db")
 	m := q.Mut
+	if strings.HasPrefix(m.Kind, "disk-") {
+		return doDiskRestore(q, out)
+	}
 	fc := &faultClient{ReplicaClient: file.NewReplicaClient(q.Dir), mut: m}
 	if m.Kind != "none" && m.Kind != "preexist" && m.File < len(q.Plan) {
 		p := q.Plan[m.File]
@@ -263,6 +268,76 @@ func doRestore(q workerReq) workerResp {
 	resp := workerResp{OK: err == nil, Fired: fc.fired, Log: fc.log}
 	if err != nil {
 		resp.Err = err.Error()
+	}
+	return resp
+}
+
+func copyTree(src, dst string) error {
+	return filepath.Walk(src, func(p string, fi os.FileInfo, err error) error {
+		if err != nil {
+			return err
+		}
+		rel, _ := filepath.Rel(src, p)
+		t := filepath.Join(dst, rel)
+		if fi.IsDir() {
+			return os.MkdirAll(t, 0o755)
+		}
+		b, err := os.ReadFile(p)
+		if err != nil {
+			return err
+		}
+		if err := os.WriteFile(t, b, 0o644); err != nil {
+			return err
+		}
+		return os.Chtimes(t, fi.ModTime(), fi.ModTime())
+	})
+}
+
+// doDiskRestore: physical corruption of a scratch copy of the replica directory, then the real Restore
+// over the plain file client (no wrapper).
+func doDiskRestore(q workerReq, out string) workerResp {
+	m := q.Mut
+	fail := func(err error) workerResp { return workerResp{Err: "HARNESS: " + err.Error()} }
+	cp := filepath.Join(q.OutDir, "replica-copy")
+	if err := copyTree(q.Dir, cp); err != nil {
+		return fail(err)
+	}
+	client := file.NewReplicaClient(cp)
+	if m.File >= len(q.Plan) {
+		return fail(fmt.Errorf("no plan file %d", m.File))
+	}
+	pf := q.Plan[m.File]
+	path := client.LTXFilePath(pf.Level, ltx.TXID(pf.Min), ltx.TXID(pf.Max))
+	var err error
+	switch m.Kind {
+	case "disk-trunc":
+		err = os.Truncate(path, int64(m.Off))
+	case "disk-flip":
+		var b []byte
+		if b, err = os.ReadFile(path); err == nil && m.Off < len(b) {
+			b[m.Off] ^= byte(m.Mask)
+			err = os.WriteFile(path, b, 0o644)
+		}
+	case "disk-delete":
+		err = os.Remove(path)
+	case "disk-dir":
+		if err = os.Remove(path); err == nil {
+			err = os.Mkdir(path, 0o755)
+		}
+	default:
+		err = fmt.Errorf("unknown disk mutation %q", m.Kind)
+	}
+	if err != nil {
+		return fail(err)
+	}
+	r := litestream.NewReplicaWithClient(nil, client)
+	opt := litestream.NewRestoreOptions()
+	opt.OutputPath = out
+	opt.IntegrityCheck = litestream.IntegrityCheckMode(m.Integrity)
+	rerr := r.Restore(context.Background(), opt)
+	resp := workerResp{OK: rerr == nil}
+	if rerr != nil {
+		resp.Err = rerr.Error()
 	}
 	return resp
 }
